@@ -201,6 +201,10 @@ func top(_ *api.Context, collection b6.UntypedCollection, n int) (b6.Collection[
 			heap.Pop(h)
 		}
 	}
+	if h == nil {
+		// No items (or an error before the first one): nothing to order
+		return b6.ArrayCollection[interface{}, interface{}]{}.Collection(), err
+	}
 	r := b6.ArrayCollection[interface{}, interface{}]{
 		Keys:   make([]interface{}, h.Len()),
 		Values: make([]interface{}, h.Len()),
